@@ -307,6 +307,21 @@ func SegName(dir string, offset int64, ext string) string {
 	return filepath.Join(dir, fmt.Sprintf("%020d%s", offset, ext))
 }
 
+// SegOffsets returns the sorted base offsets of the "*.log" files of a directory.
+func SegOffsets(dir string) []int64 {
+	var out []int64
+	for _, n := range List(dir) {
+		if strings.HasSuffix(n, ".log") {
+			var v int64
+			if _, err := fmt.Sscanf(strings.TrimSuffix(n, ".log"), "%d", &v); err == nil && len(n) == 24 {
+				out = append(out, v)
+			}
+		}
+	}
+	sort.Slice(out, func(i, j int) bool { return out[i] < out[j] })
+	return out
+}
+
 // FSEvents returns the number of file-system mutations performed so far
 // (engine only; natively 0).
 func FSEvents() int { return 0 }
